@@ -24,7 +24,7 @@ RULE = ("complete enumeration, every case distinct by construction. (dispatch, h
         "every subset of cut points with and without empty buffers / apply_diff(Reader) x changeset noise x 14 diff handler lists. Oracle: "
         "every version once, in order, prev/next = neighbouring version of the same (type,id) else itself (by address), first()/last() "
         "accordingly, handlers in argument order. Non-trivial = history with >= 2 versions in total.")
-DEADLINE = {"quick": 150, "thorough": 1100}
+DEADLINE = {"quick": 240, "thorough": 1200}
 
 NQ = 8     # executables the handler-list tables T1..T3 are spread over
 NT = 16    # executables for table T4 (thorough)
